@@ -145,7 +145,7 @@ struct inputs nondet_in(void);
 #endif
 DECL_SNAPSHOT(ssl_t, g_ssl);
 
-/* all other fields of g_ssl stay zero: not read by the two functions */
+/* all other fields of g_ssl: havocked by DFCC in the cbmc run, zero in the native replay; not read by the two functions */
 HARNESS_BEGIN
     HARNESS_INPUTS(struct inputs, in);
     int32_t vr_ret;
